@@ -796,10 +796,10 @@ def c08_worker(mode, tier, wd, extra=()):
             crashes.append({'mode': mode, 'case': where[:600], 'panic': o[i:i + 2500]})
             try:
                 start = int(where.split()[0]) + (1 if mode == 'dispatch' else 0)
-                if mode != 'dispatch':
-                    start = int(where.split()[0])
-            except ValueError:
+            except (ValueError, IndexError):
                 break
+            if len(crashes) >= 4:
+                break       # enough crashes for a verdict
             continue
         raise Machinery('C08 worker %s failed (rc=%s):\n%s' % (mode, rc, o[-2500:]))
     return result, crashes
